@@ -36,10 +36,10 @@ def _b2v(b):
 class TS:
     """Transition system of one elaborated design."""
 
-    def __init__(self, elaboratable, ports, name="top", env=None):
+    def __init__(self, elaboratable, ports, name="top", env=None, platform=None):
         ports = list(ports)
         self.ports = ports
-        self.fragment = Fragment.get(elaboratable, None)
+        self.fragment = Fragment.get(elaboratable, platform)
         # Port directions are decided here, not by Amaranth's "is any net connected" heuristic (which
         # turns a port driven by a constant into a free input): a port is an input iff no statement of
         # any fragment assigns it and it is not a memory read-port output.
